@@ -275,9 +275,9 @@ SeqNosRet(ok) ==
   /\ UNCHANGED <<slog, fo, wire, store, info, rng, open, active, balancing, cwc, finClose, finEnd, rebalances, stopped,
                  ctxs, synVars, dcwc, opener, opened, clo, spc, rpc, reop, scr, sinfo>>
   /\ IF ~ok THEN /\ opc' = "none" /\ cnt' = [cnt EXCEPT !.fail = @ + 1] /\ Die(<<SeqNosEv(FALSE)>>)
-                 /\ UNCHANGED <<obsvVars, offs, dirty, flag, obsNil, foleft, lpart, live, sv>>
+                 /\ UNCHANGED <<obsvVars, offs, dirty, flag, obsNil, foleft, lpart, live, sv, dpc>>
      ELSE IF Ahead \/ PartialLoad                      \* checkpoint beyond the high seqno / missing checkpoint entry: panic
-     THEN /\ opc' = "none" /\ Die(<<SeqNosEv(TRUE)>>) /\ UNCHANGED <<cnt, obsvVars, offs, dirty, flag, obsNil, foleft, lpart, live, sv>>
+     THEN /\ opc' = "none" /\ Die(<<SeqNosEv(TRUE)>>) /\ UNCHANGED <<cnt, obsvVars, offs, dirty, flag, obsNil, foleft, lpart, live, sv, dpc>>
      ELSE /\ UNCHANGED <<up, mpc, cnt>>
           /\ IF LatestBranch          \* the maps are installed only when Load returns, after the failover-log queries
              THEN /\ opc' = "folog" /\ foleft' = Cardinality(RangeSet) /\ Emit(<<SeqNosEv(TRUE)>>)
@@ -295,7 +295,7 @@ FoLogRet(ok) ==
   /\ UNCHANGED <<slog, fo, wire, store, info, rng, open, active, balancing, cwc, finClose, finEnd,
                  rebalances, stopped, ctxs, synVars, dcwc, opener, opened, clo, spc, rpc, reop, scr, sinfo>>
   /\ IF ~ok THEN /\ opc' = "none" /\ cnt' = [cnt EXCEPT !.fail = @ + 1] /\ Die(<<[ev |-> "Fail", what |-> "FoLog"]>>)
-                 /\ UNCHANGED <<obsvVars, obsNil, foleft, lpart, live, offs, dirty, flag, sv>>
+                 /\ UNCHANGED <<obsvVars, obsNil, foleft, lpart, live, offs, dirty, flag, sv, dpc>>
      ELSE /\ UNCHANGED <<up, mpc, cnt>>
           /\ foleft' = foleft - 1
           /\ IF foleft = 1
@@ -842,19 +842,21 @@ Scrape ==
      ELSE /\ scr' = "wait" /\ Emit(<<[ev |-> "SeqNosReq"]>>)
   /\ UNCHANGED <<envVars, obsvVars, strVars, synVars, mpc, dcwc, opener, opc, opened, live, foleft, lpart, clo, spc, sv, rpc, dpc, reop, sinfo>>
 
-ScrapeVal ==
-  LET lagOf(v) == IF offs[v] = NoOff THEN 0 ELSE IF HighOf(v) > offs[v].seq THEN HighOf(v) - offs[v].seq ELSE 0
+ScrapeVal(low) ==
+  LET hi(v) == IF low THEN 0 ELSE HighOf(v)       \* (a stale answer: high seqnos below the tracked position)
+      lagOf(v) == IF offs[v] = NoOff THEN 0 ELSE IF hi(v) > offs[v].seq THEN hi(v) - offs[v].seq ELSE 0
       RECURSIVE Sum(_)
       Sum(S) == IF S = {} THEN 0 ELSE LET x == CHOOSE y \in S : TRUE IN lagOf(x) + Sum(S \ {x})
-  IN [ev |-> "Scrape", closed |-> FALSE, pos |-> offs, lag |-> [v \in VB |-> lagOf(v)], total |-> Sum(VB),
+  IN [ev |-> "Scrape", closed |-> FALSE,
+      pos |-> [v \in VB |-> IF offs[v] = NoOff THEN <<0 - 1, 0 - 1, 0 - 1>> ELSE <<offs[v].seq, offs[v].ss, offs[v].se>>], lag |-> [v \in VB |-> lagOf(v)], total |-> Sum(VB),
       cnt |-> ocnt, active |-> active, rebalances |-> rebalances, member |-> sinfo[1], totalm |-> sinfo[2],
       rlo |-> ChunkLo(sinfo[2], sinfo[1]), rhi |-> ChunkHi(sinfo[2], sinfo[1])]
 \* the high seqnos arrive: the rest of Collect runs on what the stream holds NOW
-ScrapeRet ==
+ScrapeRet(low) ==
   /\ UNCHANGED wind
   /\ up /\ Prompt /\ scr = "wait"
   /\ scr' = "idle"
-  /\ Emit(<<SeqNosEvS(TRUE, TRUE), ScrapeVal>>)
+  /\ Emit(<<[SeqNosEvS(TRUE, TRUE) EXCEPT !.high = IF low THEN [v \in VB |-> 0] ELSE @], ScrapeVal(low)>>)
   /\ UNCHANGED <<envVars, obsvVars, strVars, synVars, mpc, dcwc, opener, opc, opened, live, foleft, lpart, clo, spc, sv, rpc, dpc, reop, sinfo>>
 
 -----------------------------------------------------------------------------
@@ -940,7 +942,7 @@ Step(l) ==
     [] l.a = "Crash"      -> Crash
     [] l.a = "Flush"      -> Flush(l.vb)
     [] l.a = "Scrape"     -> Scrape
-    [] l.a = "ScrapeRet"  -> ScrapeRet
+    [] l.a = "ScrapeRet"  -> ScrapeRet(l.low)
     [] l.a = "StartWind"  -> StartWind
     [] l.a = "Quiesce"    -> Quiesce
 
@@ -949,7 +951,7 @@ MaxTimers == 4
 Life == MaxNotify > 0 \/ MaxEnds > 0 \/ AllowClose
 Labels ==
   [a : {"Boot", "StartWind", "Quiesce"}]
-  \cup (IF Scrapes THEN [a : {"Scrape", "ScrapeRet"}] ELSE {})
+  \cup (IF Scrapes THEN [a : {"Scrape"}] \cup [a : {"ScrapeRet"}, low : BOOLEAN] ELSE {})
   \cup (IF MaxCrash > 0 THEN [a : {"Crash"}] ELSE {})
   \cup (IF MaxCrash > 0 /\ MaxFail > 0 THEN [a : {"Flush"}, vb : VB] ELSE {})
   \cup [a : {"LoadRet"}, ok : IF MaxFail > 0 THEN BOOLEAN ELSE {TRUE}, part : IF MaxFail > 0 THEN BOOLEAN ELSE {FALSE}]
@@ -1012,6 +1014,9 @@ NewMarks(l) ==
   \cup (IF a = "Push" /\ l.x.k = "mark" /\ osnap[l.vb] # NoSnap /\ \E i \in DOMAIN ctxs : ctxs[i].vb = l.vb /\ ctxs[i].gen = cgen
          THEN {"markerAfterDelivery"} ELSE {})
   \cup (IF a = "SaveRet" /\ ~l.ok THEN {"failedSave"} ELSE {})
+  \cup (IF a = "SaveRet" /\ ~l.ok /\ spc[l.t] = "storing" /\ dirty \ sv[l.t].ddirty # {} THEN {"otherVbMarkedDuringFailingSave"} ELSE {})
+  \cup (IF a = "End" /\ l.cause \in TransientCauses /\ offs[l.vb] # NoOff /\ osnap[l.vb] # NoSnap
+            /\ <<offs[l.vb].ss, offs[l.vb].se>> # osnap[l.vb] /\ offs[l.vb].seq > 0 THEN {"transientAfterNewMarker"} ELSE {})
   \cup (IF a = "SaveLock" /\ spc[l.t] = "want" /\ sv[l.t].gen \in slock THEN {IF l.t = "main" THEN "finalSaveBlocked" ELSE "lockContention"} ELSE {})
   \cup (IF a = "SaveLock" /\ l.t = "main" /\ spc[l.t] = "want" /\ sv[l.t].gen \in slock /\ "closeMidSave" \in marks
          THEN {"finalSaveBlockedUnsaved"} ELSE {})
@@ -1028,6 +1033,8 @@ NewMarks(l) ==
   \cup (IF a = "TimerFire" /\ l.i \in DOMAIN timers /\ timers[l.i].fn = "Rebalance" THEN {"rearmedTimer"} ELSE {})
   \cup (IF a = "Boot" /\ \E v \in VB : store[v] # NoOff /\ store[v].ss < store[v].seq /\ store[v].seq < store[v].se THEN {"resumeMidSnapshot"} ELSE {})
   \cup (IF a = "SeqNosRet" /\ l.ok /\ PartialLoad /\ ~Ahead THEN {"partialLoad"} ELSE {})
+  \cup (IF a = "LoadRet" /\ l.ok /\ ~l.part /\ (\E v \in RangeSet : store[v] # NoOff) /\ (\E v \in RangeSet : store[v] = NoOff)
+         THEN {"sessionWithPartialStore"} ELSE {})
   \cup (IF a = "LoadRet" /\ ~l.ok THEN {"loadFails"} ELSE {})
   \cup (IF a = "SeqNosRet" /\ ~l.ok THEN {"seqnosFails"} ELSE {})
   \cup (IF a = "SeqNosRet" /\ l.ok /\ Ahead THEN {"checkpointAhead"} ELSE {})
